@@ -576,3 +576,61 @@ Fixpoint graph_eqb (a b : graph) {struct a} : bool :=
          end) ts us
   | _, _ => false
   end.
+
+(** ** Canonical text and hash of a graph (for the correspondence: the harness prints Python's graphs
+    in the same format and compares hashes, so that no large term has to be parsed by Coq).
+    Format (prefix code; identifiers contain none of the punctuation):
+      graph := T(<iexpr>) | I(<index>,<out>,<graph>) | S[<graph>;...;]
+      out   := N | L<layer>:<tref>
+      tref  := <id>:<name>(<index>,...,)[<d|s>...]
+      iexpr := Z<int> | F<hex> | V<tref> | A(<l>,<r>) | M(<l>,<r>)
+    SumNode names are not printed. *)
+From Coq Require Import Ascii NArith DecimalString DecimalPos DecimalNat.
+Local Open Scope string_scope.
+
+Definition show_nat (n : nat) : string := NilEmpty.string_of_uint (Nat.to_uint n).
+Definition show_Z (z : Z) : string :=
+  match z with
+  | Z0 => "0"
+  | Zpos p => NilEmpty.string_of_uint (Pos.to_uint p)
+  | Zneg p => "-" ++ NilEmpty.string_of_uint (Pos.to_uint p)
+  end.
+
+Definition show_mode (m : mode) : string := match m with Dense => "d" | Compressed => "s" end.
+
+Definition show_tref (t : tref) : string :=
+  show_nat (t_id t) ++ ":" ++ t_name t ++ "("
+  ++ String.concat "" (map (fun i => i ++ ",") (t_indexes t)) ++ ")["
+  ++ String.concat "" (map show_mode (t_modes t)) ++ "]".
+
+Fixpoint show_iexpr (e : iexpr) : string :=
+  match e with
+  | IInteger v => "Z" ++ show_Z v
+  | IFloat h => "F" ++ h
+  | ITensor t => "V" ++ show_tref t
+  | IAdd l r => "A(" ++ show_iexpr l ++ "," ++ show_iexpr r ++ ")"
+  | IMultiply l r => "M(" ++ show_iexpr l ++ "," ++ show_iexpr r ++ ")"
+  end.
+
+Definition show_out (o : option olayer) : string :=
+  match o with
+  | None => "N"
+  | Some l => "L" ++ show_nat (ol_layer l) ++ ":" ++ show_tref (ol_tensor l)
+  end.
+
+Fixpoint show_graph (g : graph) : string :=
+  match g with
+  | TerminalNode e => "T(" ++ show_iexpr e ++ ")"
+  | IterationNode i o n => "I(" ++ i ++ "," ++ show_out o ++ "," ++ show_graph n ++ ")"
+  | SumNode _ ts => "S[" ++ String.concat "" (map (fun t => show_graph t ++ ";") ts) ++ "]"
+  end.
+
+(** polynomial hash modulo the Mersenne prime 2^61 - 1 *)
+Definition hash_mod : N := 2305843009213693951%N.
+Fixpoint hash_string_from (h : N) (s : string) : N :=
+  match s with
+  | EmptyString => h
+  | String c r => hash_string_from ((h * 1000003 + N_of_ascii c + 1) mod hash_mod)%N r
+  end.
+Definition hash_string (s : string) : N := hash_string_from 7%N s.
+Definition hash_graph (g : graph) : N := hash_string (show_graph g).
